@@ -293,7 +293,7 @@ func (x *Exec) contractEnv(st *State, old *State, fc *FuncContract, callee *ssa.
 		env.pkg = callee.Pkg.Pkg
 	}
 	i := 0
-	if callee != nil {
+	if callee != nil && len(callee.Params) > 0 {
 		for k, p := range callee.Params {
 			if k < len(args) {
 				env.vars[p.Name()] = SVal{args[k], goT(p.Type())}
@@ -400,6 +400,12 @@ func (x *Exec) contractGhostEffects(st *State, env *SpecEnv, fc *FuncContract) {
 func (x *Exec) ghostAssign(st *State, env *SpecEnv, c *Clause) {
 	v := x.eval(env, c.E)
 	name := c.Name
+	if c.LHS != nil {
+		sel := c.LHS.(*ESel)
+		owner := x.eval(env, sel.X)
+		x.setGhostField(st, env, owner, sel.Sel, v.V)
+		return
+	}
 	switch {
 	case name == "held" || name == "now":
 		st.ghost[name] = v.V
@@ -531,10 +537,10 @@ func (x *Exec) execAppend(fr *Frame, st *State, cc *ssa.CallCommon, pos token.Po
 		for i, n := range names {
 			pre[i] = Select(x.heapGet(st, n, ArrSort(SInt, ArrSort(SInt, leaves[i].Sort))), t.Arr)
 		}
-		srcElem = func(leaf int, k Term) Term { return Select(pre[leaf], Add(t.Off, k)) }
+		srcElem = func(leaf int, k Term) Term { return Select(pre[leaf], At(t.Off, k)) }
 	case VStr:
 		tLen = t.Len
-		srcElem = func(leaf int, k Term) Term { return x.sat(t.Base, Add(t.Off, k)) }
+		srcElem = func(leaf int, k Term) Term { return x.sat(t.Base, At(t.Off, k)) }
 	default:
 		panic(unsupported("append argument"))
 	}
@@ -552,11 +558,13 @@ func (x *Exec) execAppend(fr *Frame, st *State, cc *ssa.CallCommon, pos token.Po
 		na := x.fresh("appdata", ArrSort(SInt, leaves[i].Sort))
 		k := Term{"k", SInt}
 		// prefix copied
-		x.assume(Term{fmt.Sprintf("(forall ((k Int)) (! (=> (and (<= 0 k) (< k %s)) (= (select %s (+ %s k)) (select %s (+ %s k)))) :pattern ((select %s (+ %s k)))))",
+		x.assume(Term{fmt.Sprintf("(forall ((k Int)) (! (=> (and (<= 0 k) (< k %s)) (= (select %s (at %s k)) (select %s (at %s k)))) :pattern ((select %s (at %s k)))))",
 			s.Len.S, na.S, roff.S, oldArr.S, s.Off.S, na.S, roff.S), SBool})
 		// appended elements
-		x.assume(Term{fmt.Sprintf("(forall ((k Int)) (! (=> (and (<= 0 k) (< k %s)) (= (select %s (+ %s %s k)) %s)) :pattern ((select %s (+ %s %s k)))))",
-			tLen.S, na.S, roff.S, s.Len.S, srcElem(i, k).S, na.S, roff.S, s.Len.S), SBool})
+		x.assume(Term{fmt.Sprintf("(forall ((k Int)) (! (=> (and (<= 0 k) (< k %s)) (= (select %s (at %s (+ %s k))) %s)) :pattern (%s)))",
+			tLen.S, na.S, roff.S, s.Len.S, srcElem(i, k).S, srcElem(i, k).S), SBool})
+		// the element just appended, stated without a quantifier for the common one-element append
+		x.assume(Implies(Gt(tLen, IntLit(0)), Eq(Select(na, At(roff, s.Len)), srcElem(i, IntLit(0)))))
 		// in place: everything outside the appended window is unchanged
 		x.assume(Implies(fits, Term{fmt.Sprintf("(forall ((k Int)) (! (=> (or (< k (+ %s %s)) (>= k (+ %s %s))) (= (select %s k) (select %s k))) :pattern ((select %s k))))",
 			s.Off.S, s.Len.S, s.Off.S, n.S, na.S, oldArr.S, na.S), SBool}))
@@ -578,10 +586,10 @@ func (x *Exec) execCopy(fr *Frame, st *State, cc *ssa.CallCommon, pos token.Pos)
 		for i, n := range names {
 			pre[i] = Select(x.heapGet(st, n, ArrSort(SInt, ArrSort(SInt, leaves[i].Sort))), t.Arr)
 		}
-		srcElem = func(leaf int, k Term) Term { return Select(pre[leaf], Add(t.Off, k)) }
+		srcElem = func(leaf int, k Term) Term { return Select(pre[leaf], At(t.Off, k)) }
 	case VStr:
 		sLen = t.Len
-		srcElem = func(leaf int, k Term) Term { return x.sat(t.Base, Add(t.Off, k)) }
+		srcElem = func(leaf int, k Term) Term { return x.sat(t.Base, At(t.Off, k)) }
 	default:
 		panic(unsupported("copy argument"))
 	}
@@ -592,7 +600,7 @@ func (x *Exec) execCopy(fr *Frame, st *State, cc *ssa.CallCommon, pos token.Pos)
 		oldArr := Select(E, d.Arr)
 		na := x.fresh("copydata", ArrSort(SInt, leaves[i].Sort))
 		k := Term{"k", SInt}
-		x.assume(Term{fmt.Sprintf("(forall ((k Int)) (! (=> (and (<= 0 k) (< k %s)) (= (select %s (+ %s k)) %s)) :pattern ((select %s (+ %s k)))))",
+		x.assume(Term{fmt.Sprintf("(forall ((k Int)) (! (=> (and (<= 0 k) (< k %s)) (= (select %s (at %s k)) %s)) :pattern ((select %s (at %s k)))))",
 			n.S, na.S, d.Off.S, srcElem(i, k).S, na.S, d.Off.S), SBool})
 		x.assume(Term{fmt.Sprintf("(forall ((k Int)) (! (=> (or (< k %s) (>= k (+ %s %s))) (= (select %s k) (select %s k))) :pattern ((select %s k))))",
 			d.Off.S, d.Off.S, n.S, na.S, oldArr.S, na.S), SBool})
